@@ -19,13 +19,14 @@ add("C01", "model_checking",
     "Every execution of every generator on all grids up to 4x4 (default gen_dfs), the kwargs cross product on <=3x3/3x4, the complete reachable "
     "program-state graph of Wilson and the randomized-stack DFS (states/transitions reported, absorption mass -> termination w.p. 1), and "
     "effective-bit families for percolation are explored on the real code; each terminal is judged by a dict/BFS reference model. Also: every execution on one-cell-wide "
-    "grids with a side of 129..200 (300) cells, and every generator on sequences of grid shapes / argument sets one after the other in ONE fresh interpreter (nothing of an earlier call may stick).",
+    "grids with a side of 129..200 (300) cells, and every generator on sequences of grid shapes / argument sets one after the other in ONE fresh interpreter (nothing of an earlier call may stick); "
+    "a start cell passed as an array the caller overwrites afterwards; scripted Wilson walks that bounce for 1000..30002 (thorough 300002) steps before being released.",
     "Bounded grids (small-scope); RNG primitives answer within range; program state = locals+instruction offsets of library frames.", "5/C01")
 add("C12", "model_checking",
     "same execution trees / state graphs as C01, metadata oracle on every terminal + every answer of generate_random_path()",
     "Every terminal of the exhaustively explored generator executions is compared with reference reachability (visited_cells == component of start, "
     "flag <=> connected, tree over visited cells, count bounds against the REQUESTED count of the call, corridor rule) and every endpoint draw on every distinct (maze, meta) is executed, "
-    "after the same walls were queried with other metadata (twin history); shape / argument sequences in one fresh interpreter as for C01.",
+    "after the same walls were queried with other metadata (twin history); shape / argument sequences in one fresh interpreter, caller-overwritten start arrays and very long scripted Wilson walks as for C01.",
     "Bounded grids; the documented ValueError/AssertionError for <2-cell components and 1xN grids is accepted.", "5/C12")
 
 add("C19", "model_checking",
@@ -156,14 +157,14 @@ add("C10", "exploration",
     "{pixels, ASCII}, compared pixel by pixel with a reference raster and read back",
     "Every picture must equal the reference raster (size, border, cells, between-pixels, endpoints, solution) and the ASCII text the same picture character for character; from_pixels / "
     "from_ascii of the full-flags picture must return the same kind, bits, start, end and ordered solution for start != end with a shortest path; structured grids 4x4, 3x5, 5x3, 6x6 "
-    "(12x12, 11x12, 12x11 in both tiers); same-cell-count shapes rendered interleaved in one fresh interpreter in 3 orders.",
+    "(12x12, 11x12, 12x11 in both tiers); same-cell-count shapes rendered interleaved in one fresh interpreter in 3 orders; the array handed to a reader is unchanged afterwards and a second reading gives the same maze; a slice of the tasks again under other interpreter hash seeds.",
     "(show_endpoints=False, show_solution=True) may be rejected (documented); larger grids by structured family only.", "5/C10")
 add("C17", "exploration",
     "bounded-exhaustive enumeration of solved mazes (every graph <= 2x3/3x2 x every simple path; 3x3 family x all pairs x all shortest paths; structured 5x5, 4x6) x all 8 option "
     "combinations through process_maze_rasterized_input_target, and of dataset triples x index lists through RasterizedMazeDataset, per-pixel reference comparison",
     "Input image == reference raster with the path hidden and endpoints kept; target == wall except solution pixels (open) with endpoints coloured or opened per option; isolated-pixel "
     "removal and pixel extension against literal reference implementations; ds[i], get_batch(idxs) for 40 index lists per dataset (items re-read afterwards in another order) and "
-    "from_base_MazeDataset against per-item stacking; same-cell-count shapes interleaved in one fresh interpreter.",
+    "from_base_MazeDataset against per-item stacking; same-cell-count shapes interleaved in one fresh interpreter; the small spaces again in worker pools started under two other interpreter hash seeds.",
     "Grids above 3x3 by structured family; start == end accepts either endpoint colour.", "5/C17")
 
 PLANNED = {}
